@@ -312,5 +312,8 @@ func driveC08(o opts) error {
 	if err := c08API(o, g, syms, w, cols, cfgs); err != nil {
 		return err
 	}
+	if err := c08DB(o, g, w, cols); err != nil {
+		return err
+	}
 	return w.Flush()
 }
